@@ -214,7 +214,8 @@ func c09Waves(L int, modes []sysMode) func(x *X) {
 }
 
 func init() {
-	register(&Scenario{Prop: "C09", Name: "c09/1stream-servecodec", Quick: []Bound{{1, 0}, {2, 0}}, Thorough: []Bound{{3, 0}}, Body: c09Body(1, sysModes[:1])})
+	register(&Scenario{Prop: "C09", Name: "c09/1stream-servecodec", Quick: []Bound{{1, 0}}, Thorough: []Bound{{2, 0}, {3, 0}}, Body: c09Body(1, sysModes[:1]), BudgetT: 300})
+	register(&Scenario{Prop: "C09", Name: "c09/1stream-servecodec-basic", Quick: []Bound{{2, 0}}, Thorough: []Bound{{3, 0}}, Body: c09BodyR(1, sysModes[:1], true), BudgetQ: 25})
 	register(&Scenario{Prop: "C09", Name: "c09/1stream-poll2", Quick: []Bound{{1, 0}}, Thorough: []Bound{{2, 0}}, Body: c09Body(1, sysModes[3:])})
 	register(&Scenario{Prop: "C09", Name: "c09/1stream-allmodes", Quick: []Bound{{1, 0}}, Thorough: []Bound{{2, 0}}, Body: c09Body(1, sysModes)})
 	register(&Scenario{Prop: "C09", Name: "c09/waves-L6", Quick: []Bound{{0, 0}, {1, 0}}, Thorough: []Bound{{2, 0}}, Body: c09Waves(6, []sysMode{sysModes[0], sysModes[3]}), BudgetQ: 30})
